@@ -93,7 +93,8 @@ def parseLbl? (s : String) : Option Lbl :=
   else if s = label "CoordinateLocation" then some .C
   else if s = label "IndexLocation" then some .I
   else if s.startsWith (label "MultiIndexLocation") then
-    ((s.splitOn ":").getD 1 "").toNat?.map Lbl.M
+    -- `int(lt.split(":")[1])`: a negative count gives `range(n)` empty, i.e. a multi-index location without entries
+    ((s.splitOn ":").getD 1 "").toInt?.map (fun n => Lbl.M n.toNat)
   else none
 
 def showOptNat : Option Nat → String
@@ -102,16 +103,15 @@ def showOptNat : Option Nat → String
 
 def answerFlatten (t : Tree) : String :=
   let rows := flattenT t
-  let labs := rows.map (·.1)
-  let (lbls, data) := packLocs (labs.map (·.loc))
-  let keys := labs.map (·.grid)
-  let roundtrip := match compose rows with
+  let c := colsOfRows rows            -- the columns `Layout(comp=…)` / `writeToDB` produce
+  -- read side on the same columns: `_readLayout` / `_initComps` (rowsOfCols), then `_compose`
+  let roundtrip := match (rowsOfCols c).bind compose with
     | some t' => if showTree t' = showTree t then "T" else "F"
     | none => "F"
-  showList toString (labs.map (·.ty)) ++ " " ++ showList toString (labs.map (·.serial)) ++ " "
-    ++ showList toString (rows.map (·.2)) ++ " " ++ showList toString (indexInData (labs.map (·.ty))) ++ " "
-    ++ showList showOptNat (gridIndex keys) ++ " " ++ showList toString (gridTable keys []) ++ " "
-    ++ showList showLbl lbls ++ " " ++ showList showTriple data ++ " " ++ roundtrip
+  showList toString c.ty ++ " " ++ showList toString c.serial ++ " "
+    ++ showList toString c.nKids ++ " " ++ showList toString c.idx ++ " "
+    ++ showList showOptNat c.gridIndex ++ " " ++ showList toString c.gridTab ++ " "
+    ++ showList showLbl c.lbls ++ " " ++ showList showTriple c.locData ++ " " ++ roundtrip
 
 /-- rows := [[ty,serial,nKids,grid],...] plus labels and location data as read from a file -/
 def answerCompose (rows lbls data : String) : String :=
@@ -152,6 +152,62 @@ def answer : List String → String
         | some keys => showList toString (sortIdx keys)
         | none => "bad-op"
       | _ => "bad-op"
+  | ["sortcomp", l] => match parseJAll l with
+      -- [[od,id],...] exact rationals of the cold bounding-circle outer / inner diameters
+      | some (.list ks) =>
+        match ks.mapM (fun k => match k with
+            | .list [.atom a, .atom b] => do pure ((← parseRat? a), (← parseRat? b))
+            | _ => none) with
+        | some keys => showList toString (sortIdxComp keys)
+        | none => "bad-op"
+      | _ => "bad-op"
+  | ["unpacklocs", lbls, data] =>
+      -- labels as stored (`N`, `C`, `I`, `M:<n>`; anything else: ValueError), data triples; reject = the real code raises
+      match parseJAll data with
+      | some (.list ds) => match ds.mapM jTriple? with
+        | none => "bad-op"
+        | some triples => match parseList? (fun s => some (parseLbl? s)) lbls with
+          | none => "bad-op"
+          | some ls =>
+            -- the real loop raises at the FIRST bad label or when the data run out, whichever comes first
+            let rec go (ls : List (Option Lbl)) (ds : List (Int × Int × Int)) (acc : List Loc) : Option (List Loc) :=
+              match ls with
+              | [] => some acc.reverse
+              | none :: _ => none
+              | some l :: r => match unpackLocs [l] ds with
+                | some [loc] =>
+                  let used := match l with | .M n => n | _ => 1
+                  go r (ds.drop used) (loc :: acc)
+                | _ => none
+            match go ls triples [] with
+            | some locs => showList showLoc locs
+            | none => "reject"
+      | _ => "bad-op"
+  | ["groupname", c, n, l] => match c.toNat?, n.toNat? with
+      | some c, some n => groupName c n (String.ofList (l.toList.drop 1))
+      | _, _ => "bad-op"
+  | ["filehist", l] => match parseJAll l with
+      -- [[w,name,id],[r,name],...] on one new file: w -> ok | rej (ValueError, file unchanged); r -> id | _ (KeyError)
+      | some (.list ops) =>
+        let step := fun (st : File Nat × List String) (op : J) => match op with
+          | .list [.atom "w", .atom name, id] => match jNat? id with
+            | some id => match st.1.write name ⟨[], [], id⟩ with
+              | some f' => (f', "ok" :: st.2)
+              | none => (st.1, "rej" :: st.2)
+            | none => (st.1, "bad-op" :: st.2)
+          | .list [.atom "r", .atom name] => match st.1.get name with
+            | some s => (st.1, toString s.params :: st.2)
+            | none => (st.1, "_" :: st.2)
+          | _ => (st.1, "bad-op" :: st.2)
+        showList id ((ops.foldl step (([] : File Nat), [])).2.reverse)
+      | _ => "bad-op"
+  | ["assignbp", tys, classes] => match parseList? (fun s => s.toNat?) tys, parseList? (fun s => s.toNat?) classes with
+      -- object i holds i; every design would assign i + 1000000: how many objects hold another value afterwards
+      | some tys, some cls =>
+        let vals := List.range tys.length
+        let out := assignBlueprints (initGroups tys) cls (fun i => some (i + 1000000)) vals
+        toString ((vals.zip out).filter (fun p => p.1 ≠ p.2)).length
+      | _, _ => "bad-op"
   | ["dbversion"] => toString Gen.PackConsts.dbMajor ++ "." ++ toString Gen.PackConsts.dbMinor
   | _ => "bad-op"
 
